@@ -155,6 +155,10 @@ func c03Cases(tier string, seed int64) []core.Case {
 	}
 	for _, dotu := range []bool{true, false} {
 		dotu := dotu
+		cases = append(cases, core.Case{ID: fmt.Sprintf("renegotiated/dotu=%v", dotu), Run: func(ctx *core.Ctx) core.Result { return c03Renegotiated(ctx, dotu) }})
+	}
+	for _, dotu := range []bool{true, false} {
+		dotu := dotu
 		cases = append(cases, core.Case{ID: fmt.Sprintf("tag-reused-while-finishing/dotu=%v", dotu), Run: func(ctx *core.Ctx) core.Result { return c03TagReusedWhileFinishing(ctx, dotu) }})
 	}
 	for _, ms := range []uint32{256, 1024, 8192} {
@@ -1371,6 +1375,99 @@ func c03TagReusedWhileFinishing(ctx *core.Ctx, dotu bool) core.Result {
 			c.Rpc(&wire.Msg{Type: wire.Tclunk, Tag: tag + 1000, Fid: second.Newfid}, W)
 			res.Sig(fmt.Sprintf("tag-reused-while-finishing|%s|%v", pt, dotu))
 			res.Count("tag_reuse_orderings_arranged", 1)
+		}
+	}
+	return res
+}
+
+// c03Renegotiated: a connection that negotiates several times (small, then larger; larger, then small, then larger).
+// After every Rversion the session uses the msize that was announced: bursts of pipelined reads of every size up to
+// msize-24 (so that reply buffers of every earlier negotiation come round) are answered with exactly what the
+// implementation produced.
+func c03Renegotiated(ctx *core.Ctx, dotu bool) core.Result {
+	var res core.Result
+	ver := "9P2000"
+	if dotu {
+		ver = "9P2000.u"
+	}
+	for si, seq := range [][]uint32{{1024, 8192}, {256, 4096, 8192}, {8192, 300, 8192}, {512, 512, 8192}, {8192, 8192}} {
+		s := NewSess(Config{Dotu: dotu, Msize: 8192})
+		c := s.Dial()
+		tag := uint16(0)
+		for step, ask := range seq {
+			ctx.Beat()
+			rv, err := c.Version(ask, ver, W)
+			if err != nil || rv.Msg == nil || rv.Msg.Type != wire.Rversion {
+				res.Inconclusive = "c03: version failed"
+				c.Hangup()
+				return res
+			}
+			msize := rv.Msg.Msize
+			L := int(msize) - wire.IOHDRSZ
+			rpc := func(m *wire.Msg) *wire.Msg {
+				tag++
+				m.Tag = tag
+				r, err := c.Rpc(m, W)
+				if err != nil || r.Msg == nil {
+					return nil
+				}
+				return r.Msg
+			}
+			root, f := uint32(10*step+1), uint32(10*step+2)
+			if a := rpc(&wire.Msg{Type: wire.Tattach, Fid: root, Afid: wire.NOFID, Uname: "root", Nuname: 0}); a == nil || a.Type != wire.Rattach {
+				res.Inconclusive = "c03: attach failed"
+				c.Hangup()
+				return res
+			}
+			rpc(&wire.Msg{Type: wire.Twalk, Fid: root, Newfid: f, Wname: []string{"f"}})
+			rpc(&wire.Msg{Type: wire.Topen, Fid: f, Mode: 2})
+			det := map[string]interface{}{"msizes_asked_in_turn": seq, "step": step, "announced_msize": msize, "dotu": dotu}
+			for burst := 0; burst < 3 && len(res.Violations) == 0; burst++ {
+				seq0 := s.Log.Seq()
+				var ms []*wire.Msg
+				for i, cnt := range []int{L, 1, L / 2, L, L - 1, L, 7, L} {
+					if cnt < 1 {
+						cnt = 1
+					}
+					tag++
+					ms = append(ms, &wire.Msg{Type: wire.Tread, Tag: tag, Fid: f, Offset: uint64(1000*burst + i), Count: uint32(cnt)})
+				}
+				_ = c.Send(ms...)
+				replies := map[uint16]*Reply{}
+				for _, m := range ms {
+					rp, err := c.WaitTag(m.Tag, W)
+					if err != nil || rp.Msg == nil {
+						res.Violate("C03;renegotiated;missing-reply", fmt.Sprintf("a read of %d bytes got no reply after the connection negotiated %v in turn", m.Count, seq[:step+1]), det)
+						break
+					}
+					replies[m.Tag] = rp
+				}
+				c.Quiesce(W)
+				var tok int64
+				for _, ev := range s.Log.Snapshot(seq0) {
+					if ev.Kind == "op" && ev.Conn == c.ID && ev.Op == "Read" {
+						tok = ev.Fid
+					}
+				}
+				for _, m := range ms {
+					rp := replies[m.Tag]
+					if rp == nil {
+						continue
+					}
+					res.Evals++
+					want := script.Pattern(m.Tag, tok, m.Offset, int(m.Count))
+					if rp.Msg.Type != wire.Rread || !bytes.Equal(rp.Msg.Data, want) {
+						res.Violate(fmt.Sprintf("C03;renegotiated;wrong-content;%s", map[bool]string{true: "full-size", false: "small"}[int(m.Count) == L]),
+							fmt.Sprintf("Tread count %d (announced msize %d, after negotiating %v in turn) was answered %s, the implementation produced an Rread of %d bytes", m.Count, msize, seq[:step+1], rp.Msg.String(), len(want)), det)
+						break
+					}
+				}
+			}
+			res.Sig(fmt.Sprintf("renegotiated|%v|%d|%d|%d", dotu, si, step, msize))
+		}
+		c.Hangup()
+		if len(res.Violations) > 0 {
+			break
 		}
 	}
 	return res
